@@ -36,6 +36,12 @@ def units(tier):
                          max_epochs_unpatched=7, acc_stub=1, p0=2, fit_intercept=fi, ws_strategy='subdiff', warm=True))
     runs.append(dict(solver='GramCD', datafit='Quadratic', penalty='L1', X='corr32', max_iter=1, max_iter_unpatched=7,
                      acc_stub=1, use_acc=True, greedy_cd=False, warm=True, fit_intercept=False))
+    # working set smaller than (unpenalised features) + (support): 2 zero-weight features, warm start supported on the 2
+    # penalised ones, p0 = 1 -- a coefficient outside the working set must survive an accepted extrapolation
+    runs.append(dict(solver='AndersonCD', datafit='Quadratic', penalty='WeightedL1', X='gen34', max_iter=1, max_epochs=1,
+                     max_epochs_unpatched=7, acc_stub=1, p0=1, fit_intercept=False, ws_strategy='subdiff', warm=True,
+                     weights_concrete=[1.0, 2.0, 0.0, 0.0], w0_concrete=[2.0, -1.0, 0.0, 0.0], acc_catalogue=[1.0, 0.0],
+                     keep_design=True, ylabels=[1.0, -2.0, 3.0]))
     for c in runs:
         cid = ','.join('%s=%s' % (k, c[k]) for k in sorted(c))
         us.append(Unit('C17/D/run[%s]' % cid, ST.u_run, dict(cfg=c, want=('history',)), wall_s=150, max_paths=5000,
